@@ -465,6 +465,66 @@ Proof.
   unfold resolve, is_ref. rewrite starts_with_app. reflexivity.
 Qed.
 
+(* ---------- the stale-dedup defect: skipping the backend write for remembered keys ---------- *)
+(* A process-local "already stored" set cannot know that the shared backend was purged: after a purge
+   by ANOTHER instance the same content is serialized again, the write is skipped, and the reference
+   serialize just returned does not resolve on any other instance (nor here once the LRU drops it). *)
+Definition stale_refuted (f : cds_facts) : Prop :=
+  exists (ops1 : list (op str)) v s2 d,
+    no_purge str [] /\
+    serialize str idS noref idS f alias_conf (run str idS idS noref idS f alias_conf (st0 str) ops1) v false = (s2, d) /\
+    snd (resolve_cold str idS f s2 d) = None.
+
+Lemma route_alias_conf : forall f n, route f alias_conf (slen (n :: nil)) = true.
+Proof. intros f n. unfold route, alias_conf. cbn [min_size max_size]. destruct (inline_cmp f); reflexivity. Qed.
+
+Lemma skip_known_refuted : forall f, store_skip_known f = true -> stale_refuted f.
+Proof.
+  intros f Hf. exists [OSer [49] false; OPurgeExt], [49].
+  assert (Hp : (if ref_passthrough f then noref [49] else None) = None) by (destruct (ref_passthrough f); reflexivity).
+  cbn [run step fst].
+  unfold serialize at 2. cbn [alloc st0 next heap store lru known]. cbn [disabled alias_conf orb]. fold alias_conf.
+  rewrite Hp. unfold idS. rewrite route_alias_conf. rewrite Hf. cbn [andb memS fst]. unfold purge_ext. cbn [store lru heap next known].
+  unfold serialize. cbn [alloc next heap store lru known]. cbn [disabled alias_conf orb]. fold alias_conf.
+  rewrite Hp. unfold idS. rewrite route_alias_conf. rewrite Hf. cbn [andb memS]. rewrite str_eqb_refl. cbn [orb].
+  eexists. eexists. split; [intros o []|]. split; [reflexivity|].
+  unfold resolve_cold, is_ref, mkkey. rewrite starts_with_app. reflexivity.
+Qed.
+
+(* the same with the instance's OWN purge() when it forgets the LRU and the backend but not the set *)
+Lemma skip_known_own_purge_refuted : forall f, store_skip_known f = true -> purge_clears_known f = false ->
+  exists v s2 d,
+    serialize str idS noref idS f alias_conf (run str idS idS noref idS f alias_conf (st0 str) [OSer v false; OPurge]) v false = (s2, d) /\
+    snd (resolve_cold str idS f s2 d) = None.
+Proof.
+  intros f Hf Hc. exists [49].
+  assert (Hp : (if ref_passthrough f then noref [49] else None) = None) by (destruct (ref_passthrough f); reflexivity).
+  cbn [run step fst].
+  unfold serialize at 2. cbn [alloc st0 next heap store lru known]. cbn [disabled alias_conf orb]. fold alias_conf.
+  rewrite Hp. unfold idS. rewrite route_alias_conf. rewrite Hf. cbn [andb memS fst]. unfold purge_own. rewrite Hc.
+  cbn [store lru heap next known].
+  unfold serialize. cbn [alloc next heap store lru known]. cbn [disabled alias_conf orb]. fold alias_conf.
+  rewrite Hp. unfold idS. rewrite route_alias_conf. rewrite Hf. cbn [andb memS]. rewrite str_eqb_refl. cbn [orb].
+  eexists. eexists. split; [reflexivity|].
+  unfold resolve_cold, is_ref, mkkey. rewrite starts_with_app. reflexivity.
+Qed.
+
+(* the no-purge guard of resolve_serialize is necessary: purge() is the documented way to drop every
+   stored value, a reference created BEFORE it is gone afterwards (KeyError), whatever the facts *)
+Lemma purge_drops_references : forall f,
+  exists v s2 d,
+    serialize str idS noref idS f alias_conf (st0 str) v false = (s2, d) /\
+    snd (resolve str idS f alias_conf (run str idS idS noref idS f alias_conf s2 [OPurge]) d) = None.
+Proof.
+  intros f. exists [49].
+  assert (Hp : (if ref_passthrough f then noref [49] else None) = None) by (destruct (ref_passthrough f); reflexivity).
+  unfold serialize. cbn [alloc st0 next heap store lru known]. cbn [disabled alias_conf orb]. fold alias_conf.
+  rewrite Hp. unfold idS. rewrite route_alias_conf.
+  eexists. eexists. split; [reflexivity|].
+  cbn [run step fst]. unfold purge_own. unfold resolve, is_ref, mkkey. rewrite starts_with_app.
+  cbn [store lru lookupS]. reflexivity.
+Qed.
+
 (* What holds on the CURRENT tree is decided by the generated fact: an LRU of live objects is
    refuted by a mutation; an LRU of serialized texts makes every trace quiet, so that
    resolve_serialize holds for all traces, mutations included. *)
